@@ -2,12 +2,13 @@ package vc
 
 import (
 	"fmt"
-	"runtime/debug"
 	"go/constant"
 	"go/token"
 	"go/types"
 	"math/big"
 	"os"
+	"runtime/debug"
+	"sort"
 	"strings"
 
 	"golang.org/x/tools/go/ssa"
@@ -1289,6 +1290,49 @@ func (e *Exec) unop(st *State, fr *Frame, in *ssa.UnOp) Val {
 	return nil
 }
 
+// addressOf models uintptr(unsafe.Pointer(&a[i])) for an element of a scalar array object: an unknown base address
+// per object plus the element offset. Distinct objects occupy disjoint address ranges (assumed pairwise for the
+// objects whose addresses are taken), every object lies within the 47-bit user address space and does not wrap.
+func (e *Exec) addressOf(st *State, p *PtrVal) *Term {
+	c := e.C
+	if len(p.Path) != 1 || p.Path[0].Idx == nil {
+		return nil
+	}
+	av, ok := e.root(st, p.Obj).(*ArrayVal)
+	if !ok || !av.Scalar {
+		return nil
+	}
+	esz := int64(sizeOf(av.ElemT))
+	base := c.Var(fmt.Sprintf("addr.base.%d", p.Obj), BV(64))
+	size := c.Mul(av.Len, e.idx(esz))
+	if e.addrObjs == nil {
+		e.addrObjs = map[int]*Term{}
+	}
+	if _, seen := e.addrObjs[p.Obj]; !seen {
+		e.addrObjs[p.Obj] = size
+	}
+	st.assume(c.ULe(c.BVu(4096, 64), base))
+	st.assume(c.ULe(base, c.BVu(1<<47, 64)))
+	st.assume(c.ULe(c.Add(base, size), c.BVu(1<<47, 64)))
+	var ids []int
+	for id := range e.addrObjs {
+		ids = append(ids, id)
+	}
+	sort.Ints(ids)
+	for _, id := range ids {
+		sz := e.addrObjs[id]
+		if id == p.Obj {
+			continue
+		}
+		if _, live := st.Heap[id]; !live {
+			continue
+		}
+		ob := c.Var(fmt.Sprintf("addr.base.%d", id), BV(64))
+		st.assume(c.Or(c.ULe(c.Add(base, size), ob), c.ULe(c.Add(ob, sz), base)))
+	}
+	return c.Add(base, c.Mul(p.Path[0].Idx, e.idx(esz)))
+}
+
 func (e *Exec) convert(st *State, fr *Frame, in ssa.Instruction, x Val, from, to types.Type) Val {
 	c := e.C
 	switch {
@@ -1349,6 +1393,13 @@ func (e *Exec) convert(st *State, fr *Frame, in ssa.Instruction, x Val, from, to
 	}
 	if _, ok := from.Underlying().(*types.Pointer); ok {
 		return x // unsafe.Pointer conversions etc.
+	}
+	if b, ok := from.Underlying().(*types.Basic); ok && b.Kind() == types.UnsafePointer && isIntType(to) && !e.IntMode {
+		if p, ok := x.(*PtrVal); ok && p.Obj != 0 {
+			if a := e.addressOf(st, p); a != nil {
+				return a
+			}
+		}
 	}
 	e.bail("conversion %s -> %s", from, to)
 	return nil
